@@ -425,10 +425,15 @@ def run_pipeline(tier, seed, log=lambda s: None):
         allcases[nm] = make_cases(d, dd, rng, builtins, p, fixed_inputs, fixed_scripts)
     t0 = time.time()
     impl = {}
+    from concurrent.futures import ThreadPoolExecutor
+    jobs = []
     for c in sorted(set(v for v in crate_of.values() if v)):
         cs = [x for nm in allcases if crate_of.get(nm) == c for x in allcases[nm]]
         if cs:
-            impl.update(corpus.run_crate_cases(ws, c, cs, work, timeout=300, target_dir=shared_target()))
+            jobs.append((c, cs))
+    with ThreadPoolExecutor(max_workers=8) as ex:
+        for r in ex.map(lambda j: corpus.run_crate_cases(ws, j[0], j[1], work, timeout=300, target_dir=shared_target()), jobs):
+            impl.update(r)
     run_s = time.time() - t0
     log('implementation runs: %d cases in %.1fs' % (len(impl), run_s))
     # model: stage + traces (on the dumped machine)
